@@ -4,6 +4,7 @@ import (
 	"encoding/hex"
 	"fmt"
 	"os"
+	"strings"
 	"sync"
 	"time"
 
@@ -126,6 +127,9 @@ func c03Sequential(r *core.Run) {
 // NUT-20
 
 func c03Nut20(r *core.Run) {
+	if r.Only != "" && !strings.HasPrefix(r.Only, "nut20") {
+		return
+	}
 	n := pick(r, 6, 60)
 	rng := r.Rng("nut20")
 	world := lnmodel.NewWorld(r.Seed + 2020)
@@ -396,6 +400,8 @@ func c03Judge(r *core.Run, sc c03Scen, o *c03Outcome, sig string) {
 	}
 }
 
+const c03BoundText = "every schedule with at most 2 (quick) / 5 (thorough) preemptions, at most 5000 per scenario (thorough: one child process per scenario); scheduling points: before and after every DB/LN call"
+
 func c03Schedules(r *core.Run) {
 	scens := []c03Scen{
 		{name: "mint|mint(settled,unpolled)", threads: []string{"mint", "mint"}, paid: true},
@@ -411,6 +417,25 @@ func c03Schedules(r *core.Run) {
 			c03Scen{name: "poll|notification", threads: []string{"poll"}, watcher: true, paid: true},
 		)
 	}
+	three := []c03Scen{
+		{name: "mint|mint|notification", threads: []string{"mint", "mint"}, watcher: true, paid: true},
+		{name: "mint|poll|notification", threads: []string{"mint", "poll"}, watcher: true, paid: true},
+		{name: "mint|mint|poll", threads: []string{"mint", "mint", "poll"}, paid: true},
+	}
+	if !quick(r) && r.Splits() {
+		// one child process per scenario (see core.RunPart)
+		parts := []string{}
+		for _, sc := range scens {
+			parts = append(parts, "sched/"+sc.name)
+		}
+		for _, sc := range three {
+			parts = append(parts, "sched3/"+sc.name+"/")
+		}
+		core.Parallel(len(parts), 3, func(i int) { r.RunPart(parts[i], 30*time.Minute) })
+		r.Extra("schedule_enumerations_complete_within_bound", r.Counter("enumerations_truncated_at_cap") == 0)
+		r.Extra("schedule_bound", c03BoundText)
+		return
+	}
 	allComplete := true
 	for si, sc := range scens {
 		tag := "sched/" + sc.name
@@ -419,7 +444,7 @@ func c03Schedules(r *core.Run) {
 		}
 		var seq int64
 		var mu sync.Mutex
-		bound, maxExec := 5, 10000 // thorough: every schedule with at most five preemptions, capped per scenario
+		bound, maxExec := 5, 5000 // thorough: every schedule with at most five preemptions, capped per scenario
 		if quick(r) {
 			bound = 2 // quick: every schedule with at most two preemptions
 		}
@@ -453,16 +478,11 @@ func c03Schedules(r *core.Run) {
 		}
 	}
 	r.Extra("schedule_enumerations_complete_within_bound", allComplete)
-	r.Extra("schedule_bound", "every schedule with at most 2 (quick) / 5 (thorough) preemptions, at most 10000 per scenario; scheduling points: before and after every DB/LN call")
+	r.Extra("schedule_bound", c03BoundText)
 	if quick(r) {
 		return
 	}
 	// three-way, sampled
-	three := []c03Scen{
-		{name: "mint|mint|notification", threads: []string{"mint", "mint"}, watcher: true, paid: true},
-		{name: "mint|poll|notification", threads: []string{"mint", "poll"}, watcher: true, paid: true},
-		{name: "mint|mint|poll", threads: []string{"mint", "mint", "poll"}, paid: true},
-	}
 	for ti, sc := range three {
 		sc := sc
 		core.Parallel(1500, 16, func(i int) {
